@@ -226,12 +226,16 @@ impl FixtureDatabase {
         names
     }
 
-    /// The name of the Python function (or assignment target) that defines the fixture: the
-    /// text of its name span. Differs from the fixture name for `@pytest.fixture(name=...)`.
-    fn function_name_of(&self, def: &FixtureDefinition) -> Option<String> {
+    /// What the definition binds: the indentation of its line (a class body is a namespace
+    /// of its own, apart from the module's) and the name of the Python function (or
+    /// assignment target) - the text of its name span, which differs from the fixture name
+    /// for `@pytest.fixture(name=...)`.
+    fn binding_of(&self, def: &FixtureDefinition) -> Option<(usize, String)> {
         let content = self.get_file_content(&def.file_path)?;
         let line = content.lines().nth(def.line.checked_sub(1)?)?;
-        line.get(def.start_char..def.end_char).map(str::to_string)
+        let indent = line.len() - line.trim_start().len();
+        line.get(def.start_char..def.end_char)
+            .map(|name| (indent, name.to_string()))
     }
 
     /// Order same-named definitions of one priority tier by where they are, so that the
@@ -283,16 +287,18 @@ impl FixtureDatabase {
         }
         // ... unless the earlier definition is a different function that carries the same
         // fixture name (`@pytest.fixture(name="client") def client_override(client)` after
-        // `def client()`): that one is not overwritten, it is what the override requests.
+        // `def client()`), or lives in another namespace (the module-level fixture that a
+        // test class overrides under the same name): that one is not overwritten, it is
+        // what the override requests.
         if let Some(last_def) = last_in_file {
-            let last_function = self.function_name_of(last_def);
+            let last_binding = self.binding_of(last_def);
             if let Some(earlier) = definitions
                 .iter()
                 .filter(|def| {
                     def.file_path == file_path
                         && def.line < last_def.line
                         && filter(def)
-                        && self.function_name_of(def) != last_function
+                        && self.binding_of(def) != last_binding
                 })
                 .max_by_key(|def| def.line)
             {
